@@ -13,5 +13,5 @@ VERIF_EVIDENCE_DIR=$w/evidence VERIF_REPLAY_DIR=$w/replays VERIF_REPO=$w/repo VE
 rc=$?
 echo "seed=$id property=$prop rc=$rc"
 grep "VIOLATION\|KNOWN\|INCONCLUSIVE\|harnesses pass" $w/out.txt | head -8
-rm -rf $w/repo $w/quandary-verif-*
+rm -rf $w/repo $w/quandary-verif-[0-9]*
 exit $rc
